@@ -42,6 +42,7 @@ inductive Act where
   | tryRecv (ch : String)      -- receive in a `select` with a `default` branch: never blocks
   | makeChan (ch : String) (cap : Nat)  -- ch = make(chan T, cap) (cap = 0: unbuffered)
   | wait (g : String)          -- WaitGroup / errgroup Wait
+  | blockingCall (f : String)  -- call of a possibly blocking operation outside the model (network I/O)
   | read (x : String)          -- read of a guarded variable
   | write (x : String)         -- write of a guarded variable
   | del (x : String)           -- delete(x, key) on a guarded map: a write of x
@@ -199,6 +200,7 @@ def denFirst (tbl : Table) (u : Nat) (rec : List Act → List Run) (a : Act) : L
   | .tryRecv _ => [⟨[], [], false, []⟩]
   | .makeChan _ _ => [⟨[], [], false, []⟩]
   | .wait g => [⟨[.block g], [], false, []⟩]
+  | .blockingCall f => [⟨[.block f], [], false, []⟩]
   | .read x => [⟨[.read x], [], false, []⟩]
   | .write x => [⟨[.write x], [], false, []⟩]
   | .del x => [⟨[.write x], [], false, []⟩]
@@ -295,6 +297,7 @@ def anFirst (tbl : Table) (rec : List ASt → List Act → Option Res) (sts : Li
   | .tryRecv _ => some ⟨[], sts, []⟩
   | .makeChan _ _ => some ⟨[], sts, []⟩
   | .wait g => some (stepAll sts (.block g))
+  | .blockingCall f => some (stepAll sts (.block f))
   | .read x => some (stepAll sts (.read x))
   | .write x => some (stepAll sts (.write x))
   | .del x => some (stepAll sts (.write x))
@@ -367,6 +370,64 @@ def deadlockCriteria (c : Cfg) (s : Skel) : Bool :=
 /-- all criteria -/
 def criteria (c : Cfg) (s : Skel) : Bool :=
   deadlockCriteria c s && locksetOk c s
+
+/-! ### refinements of the criteria (used where (3) does not hold as such) -/
+
+/-- lock balance of one observation: a release matches a held lock, and no spawned goroutine was
+found to end holding a lock -/
+def obsBalanced : Obs → Bool
+  | (h, .rel m) => h.contains (m, .W)
+  | (h, .rrel m) => h.contains (m, .R)
+  | (_, .bad why) => why != "goroutine ends holding a lock"
+  | _ => true
+
+/-- **lock balance**: the analysis succeeds — in particular every loop body ends each iteration
+(normally, or by `continue` / `break`) holding exactly the locks it started with —, every release
+matches a held lock, and the function, on every path to a `return` or to its end, as well as every
+goroutine it spawns, ends holding nothing. -/
+def lockBalanced (c : Cfg) (s : Skel) : Bool :=
+  match analyse c.tbl fuelDefault s with
+  | none => false
+  | some (obs, ends) => obs.all obsBalanced && ends.all (·.isEmpty)
+
+/-- (3, per mutex) no possibly blocking operation while the mutex `m` is held -/
+def obsNoBlockingHolding (m : String) : Obs → Bool
+  | (h, .block _) => !holds h m
+  | _ => true
+
+def noBlockingHolding (c : Cfg) (m : String) (s : Skel) : Bool :=
+  match analyse c.tbl fuelDefault s with
+  | none => false
+  | some (obs, _) => obs.all (obsNoBlockingHolding m)
+
+/-- (3, with exceptions) a possibly blocking operation happens outside every critical section, or it is
+one of the operations `allowed` and only mutexes among `mus` are held -/
+def obsBlockingOnly (allowed mus : List String) : Obs → Bool
+  | (h, .block w) => h.isEmpty || (allowed.contains w && h.all (fun e => mus.contains e.1))
+  | _ => true
+
+def blockingOnly (c : Cfg) (allowed mus : List String) (s : Skel) : Bool :=
+  match analyse c.tbl fuelDefault s with
+  | none => false
+  | some (obs, _) => obs.all (obsBlockingOnly allowed mus)
+
+/-- the skeleton with the `blockingCall`s of the operations `names` removed: what the function does if
+these operations are ordinary calls that return (fuel exhausted: the rest is left unchanged, so the
+criteria stay conservative) -/
+def eraseBlockingCalls (names : List String) : Nat → List Act → List Act
+  | 0, k => k
+  | _ + 1, [] => []
+  | n + 1, a :: k =>
+    match a with
+    | .blockingCall f =>
+      if names.contains f then eraseBlockingCalls names n k else a :: eraseBlockingCalls names n k
+    | .go b => .go (eraseBlockingCalls names n b) :: eraseBlockingCalls names n k
+    | .loop b => .loop (eraseBlockingCalls names n b) :: eraseBlockingCalls names n k
+    | .choice alts => .choice (alts.map (eraseBlockingCalls names n)) :: eraseBlockingCalls names n k
+    | a => a :: eraseBlockingCalls names n k
+
+def Table.eraseBlockingCalls (names : List String) (t : Table) : Table :=
+  t.map fun e => (e.1, Locks.eraseBlockingCalls names 200 e.2)
 
 /-- the first observations violating some criterion (diagnostics for the generated report) -/
 def violations (c : Cfg) (s : Skel) : List Obs :=
@@ -568,6 +629,7 @@ def Act.isBlocking : Act → Bool
   | .send _ => true
   | .recv _ => true
   | .wait _ => true
+  | .blockingCall _ => true
   | _ => false
 
 /-- a flag along a run: set by the events `on`, cleared by the events `off` -/
